@@ -63,6 +63,7 @@ type vNode struct {
 	Parallel   bool     ` + "`json:\"parallel,omitempty\"`" + `
 	Subs       []string ` + "`json:\"subs,omitempty\"`" + `
 	Goroutines bool     ` + "`json:\"goroutines,omitempty\"`" + `
+	SkipAfterSubs bool  ` + "`json:\"skip_after_subs,omitempty\"`" + `
 }
 
 type vScenario struct {
@@ -437,11 +438,14 @@ func runTB_{{SFX}}(t testing.TB, sub func(name string, f func(t *testing.T))) {
 			call_{{SFX}}(t, c, i)
 		}
 	}
-	if node.Skip != "" && node.SkipAt >= len(node.Calls) {
+	if node.Skip != "" && node.SkipAt >= len(node.Calls) && !node.SkipAfterSubs {
 		skip()
 	}
 	for _, s := range node.Subs {
 		sub(s, run_{{SFX}})
+	}
+	if node.Skip != "" && node.SkipAfterSubs {
+		skip()
 	}
 	_ = strings.TrimSpace
 }
